@@ -12,3 +12,158 @@ package encoding
 //@ func encoding.init
 //@   property C05 C15
 //@   modifies errNoProfile, errEndOfStream
+
+// ---------------------------------------------------------------- cbor.go: header reader
+
+//@ func encoding.processAdditionalInfo
+//@   property C15 C05 C06 C17 C18
+//@   ensures[small] additionalInfo < 24 ==> err == nil && mapLen == int(additionalInfo) && rest == data
+//@   ensures[one] additionalInfo == 24 ==> ((err == nil) == (len(data) >= 1)) && (err == nil ==> mapLen == int(data[0]) && rest == data[1:])
+//@   ensures[two] additionalInfo == 25 ==> ((err == nil) == (len(data) >= 2)) && (err == nil ==> mapLen == (int(data[0])<<8 | int(data[1])) && rest == data[2:])
+//@   ensures[four] additionalInfo == 26 ==> ((err == nil) == (len(data) >= 4)) && (err == nil ==> mapLen == (int(data[0])<<24 | int(data[1])<<16 | int(data[2])<<8 | int(data[3])) && rest == data[4:])
+//@   ensures[eight] additionalInfo == 27 ==> err != nil
+//@   ensures[reserved] additionalInfo >= 28 && additionalInfo != 31 ==> err != nil
+//@   ensures[indefinite] additionalInfo == 31 ==> err == nil && mapLen == 0 && rest == data
+//@   ensures[error] err != nil ==> mapLen == 0 && rest == nil
+//@   ensures[bounds] err == nil ==> mapLen >= 0 && mapLen <= 0xffffffff && len(rest) <= len(data) && (additionalInfo >= 24 && additionalInfo != 31 ==> len(rest) < len(data))
+//@   ensures[suffix] err == nil ==> refOf(rest) == refOf(data) && len(rest) <= len(data)
+//@   modifies nothing
+//@   option allocs=none
+
+// ---------------------------------------------------------------- ordered field maps (CBOR)
+
+// Representation invariant of the ordered maps: no key is recorded twice, and the recorded keys
+// are exactly the keys of the Go map.
+//@ spec noDupInts(s []int) bool = forall(i, 0, len(s), forall(j, 0, len(s), i != j ==> s[i] != s[j]))
+//@ spec omInvCBOR(o *structFieldsCBOR) bool = o.Fields != nil && noDupInts(o.Keys) && forall(j, 0, len(o.Keys), inDom(o.Fields, o.Keys[j]))
+
+//@ func encoding.newStructFieldsCBOR
+//@   property C15 C05 C06 C17
+//@   ensures[new] ret != nil && fresh(ret) && ret.Fields != nil && fresh(ret.Fields) && ret.Keys == nil && forallT(k, int, !inDom(ret.Fields, k))
+//@   modifies nothing
+
+//@ func (encoding.structFieldsCBOR).Has
+//@   property C15 C05 C17 C18
+//@   ensures[dom] ret == inDom(o.Fields, key)
+//@   modifies nothing
+//@   option allocs=none
+
+//@ func (*encoding.structFieldsCBOR).Get
+//@   property C15 C05 C17 C18
+//@   requires o != nil
+//@   ensures[dom] ret1 == inDom(o.Fields, key)
+//@   ensures[val] ret1 ==> ret0 == o.Fields[key]
+//@   modifies nothing
+//@   option allocs=none
+
+//@ func (*encoding.structFieldsCBOR).Add
+//@   property C15 C05 C06
+//@   requires o != nil && o.Fields != nil
+//@   ensures[dup] old(inDom(o.Fields, key)) ==> ret != nil && o.Keys == old(o.Keys) && elems(o.Keys) == old(elems(o.Keys)) && mapDom(o.Fields) == old(mapDom(o.Fields)) && mapVals(o.Fields) == old(mapVals(o.Fields))
+//@   ensures[add] !old(inDom(o.Fields, key)) ==> ret == nil && inDom(o.Fields, key) && o.Fields[key] == val && len(o.Keys) == len(old(o.Keys)) + 1 && o.Keys[len(old(o.Keys))] == key && forall(j, 0, len(old(o.Keys)), o.Keys[j] == old(o.Keys[j]))
+//@   ensures[others] forallT(k, int, k != key ==> inDom(o.Fields, k) == old(inDom(o.Fields, k)) && o.Fields[k] == old(o.Fields[k]))
+//@   ensures[same-map] o.Fields == old(o.Fields)
+//@   ensures[keys-array] refOf(o.Keys) == refOf(old(o.Keys)) || fresh(o.Keys)
+//@   derives[new-key] old(omInvCBOR(o)) && !old(inDom(o.Fields, key)) ==> forall(j, 0, len(old(o.Keys)), old(o.Keys[j]) != key) from same-map
+//@   derives[inv-dom] old(omInvCBOR(o)) ==> o.Fields != nil && forall(j, 0, len(o.Keys), inDom(o.Fields, o.Keys[j])) from dup add others same-map
+//@   derives[inv-nodup] old(omInvCBOR(o)) ==> noDupInts(o.Keys) from dup add new-key
+//@   derives[inv] old(omInvCBOR(o)) ==> omInvCBOR(o) from inv-dom inv-nodup
+//@   modifies o.Keys, mapOf(o.Fields), elems(o.Keys)
+
+//@ bounded[C15,C05] delete-cbor : every duplicate-free key sequence of length <= 6 over 7 keys, every key deleted :: boundedDeleteCBOR(6, 7)
+//@ bounded[C15,C05] delete-json : every duplicate-free key sequence of length <= 6 over 7 keys, every key deleted :: boundedDeleteJSON(6, 7)
+
+//@ func (*encoding.structFieldsCBOR).Delete
+//@   property C15 C05
+//@   option timeout=60000
+//@   option fallback=delete-cbor
+//@   requires o != nil && noDupInts(o.Keys)
+//@   ensures[gone] !inDom(o.Fields, key)
+//@   ensures[others] forallT(k, int, k != key ==> inDom(o.Fields, k) == old(inDom(o.Fields, k)) && o.Fields[k] == old(o.Fields[k]))
+//@   modifies o.Keys, mapOf(o.Fields), elems(o.Keys)
+//@   loop 0 invariant 0 <= i && i <= mapLen && len(rest) <= len(data)
+//@   loop 0 invariant o.Fields != nil && fresh(o.Fields) && (refOf(o.Keys) == refOf(old(o.Keys)) || fresh(o.Keys))
+//@   loop 0 invariant omInvCBOR(o)
+//@   loop 0 invariant (len(o.Keys) == len(old(o.Keys)) && elems(o.Keys) == old(elems(o.Keys)) && forall(j, 0, i, old(o.Keys[j]) != key)) || (len(o.Keys) + 1 == len(old(o.Keys)) && forall(j, i, len(old(o.Keys)), old(o.Keys)[j] != key))
+//@   loop 0 invariant !inDom(o.Fields, key) && forallT(k, int, k != key ==> inDom(o.Fields, k) == old(inDom(o.Fields, k)) && o.Fields[k] == old(o.Fields[k])) && o.Fields == old(o.Fields)
+
+// ---------------------------------------------------------------- ordered field maps (JSON)
+
+// Representation invariant of the ordered maps: no key is recorded twice, and the recorded keys
+// are exactly the keys of the Go map.
+//@ spec noDupStrings(s []string) bool = forall(i, 0, len(s), forall(j, 0, len(s), i != j ==> s[i] != s[j]))
+//@ spec omInvJSON(o *structFieldsJSON) bool = o.Fields != nil && noDupStrings(o.Keys) && forall(j, 0, len(o.Keys), inDom(o.Fields, o.Keys[j]))
+
+//@ func encoding.newStructFieldsJSON
+//@   property C15 C05 C06 C17
+//@   ensures[new] ret != nil && fresh(ret) && ret.Fields != nil && fresh(ret.Fields) && ret.Keys == nil && forallT(k, string, !inDom(ret.Fields, k))
+//@   modifies nothing
+
+//@ func (encoding.structFieldsJSON).Has
+//@   property C15 C05 C17 C18
+//@   ensures[dom] ret == inDom(o.Fields, key)
+//@   modifies nothing
+//@   option allocs=none
+
+//@ func (*encoding.structFieldsJSON).Get
+//@   property C15 C05 C17 C18
+//@   requires o != nil
+//@   ensures[dom] ret1 == inDom(o.Fields, key)
+//@   ensures[val] ret1 ==> ret0 == o.Fields[key]
+//@   modifies nothing
+//@   option allocs=none
+
+//@ func (*encoding.structFieldsJSON).Add
+//@   property C15 C05 C06
+//@   requires o != nil && o.Fields != nil
+//@   ensures[dup] old(inDom(o.Fields, key)) ==> ret != nil && o.Keys == old(o.Keys) && elems(o.Keys) == old(elems(o.Keys)) && mapDom(o.Fields) == old(mapDom(o.Fields)) && mapVals(o.Fields) == old(mapVals(o.Fields))
+//@   ensures[add] !old(inDom(o.Fields, key)) ==> ret == nil && inDom(o.Fields, key) && o.Fields[key] == val && len(o.Keys) == len(old(o.Keys)) + 1 && o.Keys[len(old(o.Keys))] == key && forall(j, 0, len(old(o.Keys)), o.Keys[j] == old(o.Keys[j]))
+//@   ensures[others] forallT(k, string, k != key ==> inDom(o.Fields, k) == old(inDom(o.Fields, k)) && o.Fields[k] == old(o.Fields[k]))
+//@   ensures[same-map] o.Fields == old(o.Fields)
+//@   ensures[keys-array] refOf(o.Keys) == refOf(old(o.Keys)) || fresh(o.Keys)
+//@   derives[new-key] old(omInvJSON(o)) && !old(inDom(o.Fields, key)) ==> forall(j, 0, len(old(o.Keys)), old(o.Keys[j]) != key) from same-map
+//@   derives[inv-dom] old(omInvJSON(o)) ==> o.Fields != nil && forall(j, 0, len(o.Keys), inDom(o.Fields, o.Keys[j])) from dup add others same-map
+//@   derives[inv-nodup] old(omInvJSON(o)) ==> noDupStrings(o.Keys) from dup add new-key
+//@   derives[inv] old(omInvJSON(o)) ==> omInvJSON(o) from inv-dom inv-nodup
+//@   modifies o.Keys, mapOf(o.Fields), elems(o.Keys)
+
+//@ func (*encoding.structFieldsJSON).Delete
+//@   property C15 C05
+//@   option timeout=60000
+//@   option fallback=delete-json
+//@   requires o != nil && noDupStrings(o.Keys)
+//@   ensures[gone] !inDom(o.Fields, key)
+//@   ensures[others] forallT(k, string, k != key ==> inDom(o.Fields, k) == old(inDom(o.Fields, k)) && o.Fields[k] == old(o.Fields[k]))
+//@   modifies o.Keys, mapOf(o.Fields), elems(o.Keys)
+//@   loop 0 invariant 0 <= i && i <= mapLen && len(rest) <= len(data)
+//@   loop 0 invariant o.Fields != nil && fresh(o.Fields) && (refOf(o.Keys) == refOf(old(o.Keys)) || fresh(o.Keys))
+//@   loop 0 invariant omInvCBOR(o)
+//@   loop 0 invariant (len(o.Keys) == len(old(o.Keys)) && elems(o.Keys) == old(elems(o.Keys)) && forall(j, 0, i, old(o.Keys[j]) != key)) || (len(o.Keys) + 1 == len(old(o.Keys)) && forall(j, i, len(old(o.Keys)), old(o.Keys)[j] != key))
+//@   loop 0 invariant !inDom(o.Fields, key) && forallT(k, string, k != key ==> inDom(o.Fields, k) == old(inDom(o.Fields, k)) && o.Fields[k] == old(o.Fields[k])) && o.Fields == old(o.Fields)
+
+// ---------------------------------------------------------------- cbor.go: map reader
+
+//@ func (*encoding.structFieldsCBOR).unmarshalKeyValue
+//@   property C15 C05 C06
+//@   requires o != nil && o.Fields != nil && dm != nil
+//@   ensures[consumes] ret1 == nil ==> len(ret0) + 2 <= len(rest) && refOf(ret0) == refOf(rest)
+//@   ensures[never-grows] len(ret0) <= len(rest)
+//@   ensures[same-map] o.Fields == old(o.Fields)
+//@   ensures[keys-array] refOf(o.Keys) == refOf(old(o.Keys)) || fresh(o.Keys)
+//@   ensures[inv] old(omInvCBOR(o)) ==> omInvCBOR(o)
+//@   modifies o.Keys, mapOf(o.Fields), elems(o.Keys)
+
+//@ func (*encoding.structFieldsCBOR).FromCBOR
+//@   property C15 C05 C06
+//@   requires o != nil && dm != nil && len(o.Keys) == 0
+//@   allocbound len(data)
+//@   ensures[inv] ret == nil ==> omInvCBOR(o)
+//@   ensures[empty-input] len(data) == 0 ==> ret != nil
+//@   ensures[not-a-map] len(data) > 0 && (data[0] >> 5) != 5 && (data[0] >> 5) != 6 ==> ret != nil
+//@   modifies o.Fields, o.Keys, elems(o.Keys)
+//@   loop 0 invariant 0 <= i && i <= mapLen && len(rest) <= len(data) && o.Fields != nil && fresh(o.Fields) && omInvCBOR(o) && (refOf(o.Keys) == refOf(old(o.Keys)) || fresh(o.Keys))
+//@   loop 0 decreases mapLen - i
+//@   loop 1 invariant 0 <= i && i <= len(data) && i + len(rest) <= len(data) && len(rest) <= len(data)
+//@   loop 1 invariant o.Fields != nil && fresh(o.Fields) && (refOf(o.Keys) == refOf(old(o.Keys)) || fresh(o.Keys))
+//@   loop 1 invariant omInvCBOR(o)
+//@   loop 1 decreases len(rest)
